@@ -332,6 +332,10 @@ func (t *tr) block(stmts []ast.Stmt, ind string) string {
 			if id.Name == "_" {
 				return t.block(rest, ind)
 			}
+			// a variable that outlives the call (package level) is not a `let`: another call sees the assignment
+			if obj := info.ObjectOf(id); obj != nil && obj.Pkg() != nil && obj.Parent() == obj.Pkg().Scope() {
+				return ind + t.fail(s, "assignment to the package-level variable %s", id.Name)
+			}
 			rhs := ""
 			// xs = append(xs, e1, e2)
 			if call, ok := x.Rhs[0].(*ast.CallExpr); ok {
